@@ -27,7 +27,7 @@ AnyLab(v) == CASE v.t = "obj" -> Obj([i \in 1..Len(v.kv) |-> <<v.kv[i][1], AnyLa
 Items(t) == Arr(<<Leaf("plain", "any"), Leaf("num", "any"), Null("any"), Arr(<<Leaf("num", "any"), Leaf("plain", "any")>>), Leaf("bool", "any"), t>>)
 
 Slots == {"filter", "query", "sort", "q", "u", "update", "updatePipe", "updates", "deletes", "documents", "documentsNoInsert",
-          "pipeline", "uPipe", "other"} \cup DamagedSlots
+          "pipeline", "uPipe", "other"} \cup (IF EWDamaged THEN DamagedSlots ELSE {})
 
 \* shallow zone content: a field with a literal, an operator over a literal, an array of literals, a nested document
 Contents == {"field", "op", "arr", "nested", "ref", "numbool"}
